@@ -28,7 +28,7 @@ def fail_desc(res, allow):
     """Failing checks of a harness that are not expected."""
     out = []
     for d, loc in res.failed:
-        if any(re.search(p, d) for p in allow):
+        if any(re.search(p, d + " @ " + loc) for p in allow):
             continue
         out.append((d, loc))
     return out
@@ -70,6 +70,17 @@ def main():
         sys.exit(do_replay(args.path))
 
     prop = args.prop.upper()
+    if prop in ("C13", "C14", "C15", "C16"):
+        # the enclosure tables need mpmath (interval arithmetic), which lives in the tooling venv
+        try:
+            import mpmath  # noqa: F401
+        except ImportError:
+            import shutil
+            if shutil.which("python3-vt") and not os.environ.get("VERIF_REEXEC"):
+                os.environ["VERIF_REEXEC"] = "1"
+                os.execvp("python3-vt", ["python3-vt"] + sys.argv)
+            log("INCONCLUSIVE: mpmath is not importable and python3-vt is not on PATH")
+            sys.exit(2)
     tier = args.tier if args.tier in ("quick", "thorough") else "quick"
     try:
         seed = int(os.environ.get("VERIF_SEED", "0"))
@@ -135,7 +146,7 @@ def main():
                 inconclusive.append((j.name, "FAILED verdict without a parsed failing check"))
                 continue
             if r.status in ("ok", "fail") and not bad and j.expect_fail:
-                lacking = [p for p in j.expect_fail if not any(re.search(p, d) for d, _ in r.failed)]
+                lacking = [p for p in j.expect_fail if not any(re.search(p, d + " @ " + loc) for d, loc in r.failed)]
                 if lacking:
                     # the documented panic did not happen: the call returned (or was unreachable)
                     bad = [("expected panic %s did not occur" % lacking, "")]
